@@ -93,7 +93,11 @@ def c03_2(rep, ix, M):
     fn = f.node
     arg = f.params[0]
     branches = {}
-    for s in fn.body:
+    # the dispatch may stand inside a wrapper that encloses the whole body (try / with): the branches are looked for in the innermost such block
+    block = [s for s in fn.body if not (isinstance(s, ast.Expr) and isinstance(s.value, ast.Constant))]
+    while len(block) == 1 and isinstance(block[0], (ast.Try, ast.With)):
+        block = list(block[0].body)
+    for s in block:
         if isinstance(s, ast.If) and isinstance(s.test, ast.Call) and u(s.test.func) == "isinstance" and u(s.test.args[0]) == arg:
             cls = s.test.args[1]
             names = cls.elts if isinstance(cls, ast.Tuple) else [cls]
@@ -227,6 +231,14 @@ def division(rep, R, site, label, tok, t):
         if x == E1:
             rep.bad(R, site, "#%s/%s: the divisor reaching %s is never an integer kind" % (label, tok, prim),
                     "integer kinds (int, bool, np.int64) reach the inverse unguarded: np.power(int, -1) raises / np.reciprocal(int) truncates", key="%s|%s|unguarded" % (label, tok))
+            return
+        if isinstance(x, tuple) and x[0] == "try" and x[2] == E1 and x[1] == ("cast", "float", E1):
+            # float() is attempted for every divisor; whether it changes the value is a fact of the library model: ints and floats convert,
+            # a Python complex and a SymPy expression raise TypeError (caught: the value stays), a NumPy complex scalar only warns and loses
+            # its imaginary part
+            rep.bad(R, site, "#%s/%s: a complex divisor is not pushed through float()" % (label, tok),
+                    "`try: b = float(b) except %s: pass` converts whatever float() accepts; float(np.complex128) does not raise - it emits a ComplexWarning and drops the imaginary part, "
+                    "so a computed complex divisor (2j*2) is divided by as its real part" % ", ".join(x[3]), key="%s|%s|trycast" % (label, tok))
             return
         if isinstance(x, tuple) and x[0] == "ite" and x[4] == E1 and x[3] == ("cast", "float", E1):
             guard, name = x[1], x[2]
